@@ -392,13 +392,16 @@ func GenFleet(prof *fleetProfile) func(r *engine.PRNG, run int, tier string) *en
 		}
 		p.Config["signs"] = g.signs
 		p.Config["maporder"] = []string{"asc", "desc", "keyed", "shuffle"}[r.Pick(3, 2, 3, 2)]
-		switch r.Pick(40, 35, 25) {
+		switch r.Pick(400, 350, 247, 3) {
 		case 0:
 			g.opsLeft = r.Range(3, 12)
 		case 1:
 			g.opsLeft = r.Range(12, 40)
-		default:
+		case 2:
 			g.opsLeft = r.Range(40, prof.maxOps)
+		default: // a long history: many compactions, array growths, pages, collapses
+			g.opsLeft = r.Range(5*prof.maxOps, 15*prof.maxOps)
+			p.Config["history"] = "long"
 		}
 		nNodes := r.Range(prof.minNodes, prof.maxNodes)
 		var shared *engine.Node
@@ -475,7 +478,7 @@ func GenFleet(prof *fleetProfile) func(r *engine.PRNG, run int, tier string) *en
 		if prof.extra != nil {
 			prof.extra(g)
 		}
-		for steps := 0; g.q.Step() && steps < 3000; steps++ {
+		for steps := 0; g.q.Step() && steps < 40000; steps++ {
 		}
 		return p
 	}
